@@ -173,7 +173,7 @@ func drawMsg(t *rapid.T, text string, k int) M {
 	return m
 }
 
-var inputTexts = []string{"red", "blue", "yes", "no", "5", "18", "20", "hello world", "", "2019-05-05", "bob@nyaruka.com", "0788123123", "it is very good", "start now", "123", "green dark", "Kigali", "magic", "xyzzy", "10:30", "Yes"}
+var inputTexts = []string{"red", "blue", "yes", "no", "5", "18", "20", "hello world", "", "2019-05-05", "bob@nyaruka.com", "0788123123", "it is very good", "start now", "123", "green dark", "Kigali", "magic", "xyzzy", "10:30", "Yes", "٤٢", "４２", "???", "(-: Bob"}
 
 // DrawTrigger draws a trigger document starting the world's first flow.
 func DrawTrigger(t *rapid.T, w *world.World, o GenOpts) M {
